@@ -63,12 +63,13 @@ def templates(tier, seed):
             tds.append(dict(fam="selfsufficient", where=where, place=place))
     for place in ("xy-attrs", "none"):
         tds.append(dict(fam="textparam", place=place))
+    for order in ("fwd-first", "fwd-second", "fwd-both"):
+        for outer in ("var", "g-attr"):
+            tds.append(dict(fam="retry-independence", order=order, outer=outer))
     tds.append(dict(fam="specs-hidden"))
     for how in ("global-reassigned", "reuse-attr-overrides", "both"):
         for where in ("inline", "specs"):
             tds.append(dict(fam="rebind", how=how, where=where))
-    if tier == "quick":
-        tds = sample_quota(tds, lambda t: (t["fam"],), {"shape": 50, "group": 10, "symbol": 10, "selfsufficient": 12, "textparam": 2, "specs-hidden": 1, "rebind": 6}, seed)
     return tds
 
 
@@ -165,6 +166,27 @@ def build(td, wrong=False):
         d0 = f'<svg><var q="[[{ka}]]"/>{tw}{mid}<reuse href="#t"{rq} x="[[{kp}]]" y="[[{kp + 1}]]"/></svg>'
         tmpl_twin = "" if td["where"] == "specs" else f'<rect id="t" xy="0" wh="[[{ka}]] 2"/>'
         d1 = f'<svg>{tmpl_twin}<rect xy="[[{kp}]] [[{kp + 1}]]" wh="{final_q} 2" class="t"/></svg>'
+        inst_vars.append(list(range(ka, len(vars_))))
+    elif fam == "retry-independence":
+        # an instantiation that has to be retried (its bindings reach a forward reference) must not leave anything behind
+        # that a later instance, which relies on the enclosing value of the same name, could see
+        ka = alloc([(6, *S), (9, *S), (4, *S), (7, *S)])     # outer s, binding s, early width, later width
+        kp = alloc([(30, *V), (-9, *V), (10, *V), (20, *V)])
+        tmpl = '<specs><rect id="t" wh="$s 2" data-w="{{$ref~w}}"/></specs>'
+        early = f'<rect id="early" xy="0" wh="[[{ka + 2}]] 1"/>'
+        later = f'<rect id="later" xy="50 50" wh="[[{ka + 3}]] 1"/>'
+        refs = {"fwd-first": ("#later", "#early"), "fwd-second": ("#early", "#later"), "fwd-both": ("#later", "#later")}[td["order"]]
+        wv = {"#later": f"[[{ka + 3}]]", "#early": f"[[{ka + 2}]]"}
+        i0 = f'<reuse id="i0" href="#t" s="[[{ka + 1}]]" ref="{refs[0]}" x="[[{kp}]]" y="[[{kp + 1}]]"/>'
+        i1 = f'<reuse id="i1" href="#t" ref="{refs[1]}" x="[[{kp + 2}]]" y="[[{kp + 3}]]"/>'
+        t0 = f'<rect id="i0" xy="[[{kp}]] [[{kp + 1}]]" wh="[[{ka + 1}]] 2" data-w="{wv[refs[0]]}" class="t"/>'
+        t1 = f'<rect id="i1" xy="[[{kp + 2}]] [[{kp + 3}]]" wh="[[{ka}]] 2" data-w="{wv[refs[1]]}" class="t"/>'
+        if td["outer"] == "var":
+            d0 = f'<svg>{tmpl}{early}<var s="[[{ka}]]"/>{i0}{i1}{later}</svg>'
+            d1 = f'<svg>{early}{t0}{t1}{later}</svg>'
+        else:
+            d0 = f'<svg>{tmpl}{early}<g s="[[{ka}]]">{i0}{i1}</g>{later}</svg>'
+            d1 = f'<svg>{early}<g s="[[{ka}]]">{t0}{t1}</g>{later}</svg>'
         inst_vars.append(list(range(ka, len(vars_))))
     elif fam == "textparam":
         kw = alloc([(6, *S), (4, *S)])
